@@ -93,7 +93,13 @@ def run(tier, replay=None):
         raise common.Broken("Core violates %s" % core.violation)
     classes = sorted(((st["m"], st["pc"], st["idk"], sorted(st["expect"])) for st in core.graph.nodes.values() if st["m"] in COMMON))
     events, rps = [], {}
-    sets = ["rich", "empty", "set2"]
+    sets = ["rich", "empty", "set2", "dup"]
+    # requests beyond Core's classes whose answers must merely agree: version negotiation, names registered twice
+    EXTRA = {"rich": [("initialize", "pv:" + v, json.dumps({"jsonrpc": "2.0", "id": 880 + k, "method": "initialize", "params": {"protocolVersion": v,
+                       "clientInfo": {"name": "p", "version": "0"}, "capabilities": {}}})) for k, v in enumerate(["1999-01-01", "", "2024-11-05", "2025-03-26", "2025-06-18", "9999-12-31"])],
+             "dup": [("tools/call", "dup-echo", '{"jsonrpc":"2.0","id":890,"method":"tools/call","params":{"name":"echo","arguments":{"nonce":"d"}}}'),
+                     ("prompts/get", "dup-prompt", '{"jsonrpc":"2.0","id":891,"method":"prompts/get","params":{"name":"p-dup"}}'),
+                     ("resources/read", "dup-resource", '{"jsonrpc":"2.0","id":892,"method":"resources/read","params":{"uri":"r://dup"}}')]}
     for regset in sets:
         items, meta = [], []
         for n, (m, pc, idk, expect) in enumerate(classes):
@@ -103,6 +109,9 @@ def run(tier, replay=None):
             body, _, _ = rc.body_for(m, pc, idv)
             items.append({"id": "p%d" % n, "body": body, "expect_answer": True})
             meta.append((m, pc, idk, expect, body))
+        for k, (m, pc, body) in enumerate(EXTRA.get(regset, [])):
+            items.append({"id": "x%d" % k, "body": body, "expect_answer": True})
+            meta.append((m, pc, "int", ["result", "rpc:-32602", "rpc:-32600"], body))
         jobs = [(kind, [dict(it, sse=(kind == "sse")) for it in items], regset) for kind in rc.KINDS]
         outs = rc.run_probes(jobs)
         for (kind, _, _), out in zip(jobs, outs):
